@@ -258,8 +258,15 @@ static void cond_signaller(caller_t *c)
         __sync_add_and_fetch(&g_holders, 1);
         int done = g_cs.returned == g_cs.nwaiters;
         int p = g_cs.present_untimed;
-        int expect = -1;
-        if (!done && p > 0) {
+        int expect = -1, after = 0;
+        if (!done && p > 0 && rnd(4) == 0) {
+            /* signal after the mutex has been given back: the waiters counted above have all
+             * released it inside their wait, i.e. they are on the wait list */
+            after = 1 + (use_bcast && rnd(2));
+            expect = g_cs.success + (after == 2 ? p : 1);
+            EV("\"e\":\"Acq\",\"t\":%d", c->id);
+            EV("\"e\":\"Rel\",\"t\":%d", c->id);
+        } else if (!done && p > 0) {
             EV("\"e\":\"Acq\",\"t\":%d", c->id);
             if (use_bcast && rnd(2)) {
                 EV("\"e\":\"Bcast\",\"t\":%d,\"at\":%d", c->id, rel_us());
@@ -278,6 +285,25 @@ static void cond_signaller(caller_t *c)
         }
         __sync_sub_and_fetch(&g_holders, 1);
         CHK(ABT_mutex_unlock(g_m));
+        if (!done && p == 0 && c->x[2]) {
+            /* nobody was waiting a moment ago: signals sent now, without touching the mutex, may
+             * reach a waiter that has arrived meanwhile */
+            for (int k = 0; k < 2; k++) {
+                for (int j = 0; j < 6; j++)
+                    drv_pause(c);
+                EV("\"e\":\"SigCall\",\"t\":%d,\"kind\":\"maybe\",\"at\":%d", c->id, rel_us());
+                CHK(ABT_cond_signal(g_cv));
+                EV("\"e\":\"SigRet\",\"t\":%d", c->id);
+            }
+        }
+        if (after) {
+            EV("\"e\":\"SigCall\",\"t\":%d,\"kind\":\"%s\",\"at\":%d", c->id, after == 1 ? "signal" : "bcast", rel_us());
+            if (after == 1)
+                CHK(ABT_cond_signal(g_cv));
+            else
+                CHK(ABT_cond_broadcast(g_cv));
+            EV("\"e\":\"SigRet\",\"t\":%d", c->id);
+        }
         if (done)
             break;
         if (expect >= 0) {
@@ -331,6 +357,7 @@ static void scn_cond(int timed_mode)
     s->body = cond_signaller;
     s->x[0] = rnd(2);
     s->x[1] = (timed_mode && rnd(2)) ? 300 + rnd(200) : 0;
+    s->x[2] = rnd(3) == 0;
     EV("\"e\":\"Cond\",\"nw\":%d,\"timed\":%d,\"hold\":%d", nw, timed_mode, s->x[1]);
     callers_launch(32768);
     callers_join();
